@@ -33,6 +33,8 @@ var leafElemType = map[string]string{
 }
 
 func runC04(c *Ctx) {
+	checkReceiverMutation(c, 10, [][2]string{{"consensus", "ElementAccumulator"}})
+
 	c.Explain("Decides the structural clauses of accumulator membership soundness: (1) leaf commitment coverage: each of the six leaf constructors hashes every leaf field path of its element type (enumerated from go/types) except the StateElement (position and proof, which the leaf hash and the proof root bind), under its own distinguisher; the leaf hash binds element hash, leaf index and the spent flag; (2) membership predicate: containsLeaf is 'a tree exists at height len(proof)' AND 'the stored root equals the proof root', and every contains* wrapper hashes the element with the constant spent flag its use requires and no revision; (3) parent coverage: ValidateTransactionElements checks every element-bearing path of V2Transaction (including a storage proof's chain index element), the v2 validators and the v1 supplement check every parent (shared rows with C02); (4) leaf collection: every element slice of the MidState and the chain index element is turned into a leaf on block application and split into updated/added by LeafIndex == UnassignedLeafIndex; (5) the leaf functions duplicated in package types equal their consensus originals. Proof-root arithmetic and collision resistance are not decided.")
 	c.NotCovered("proof-root arithmetic", "collision resistance", "that elements from a reverted branch fail (history-level, C05/C06)")
 	progs := ExtractWirePrograms(c.P)
